@@ -15,6 +15,11 @@ RULE = ("Two sources: (1) Hypothesis-generated strongly consistent bases as C01;
         "side; the all-pairs recursion differs from the definition; ties down to layer 0); only "
         "then is the library run, with both back-ends. Oracle = least per-layer falsification "
         "count vector (highest layer first) over A&B worlds < least over A&notB worlds. "
+        "(3) 'distinguishing inputs' (vlib/hard.py): queries built from chosen world sets on which "
+        "the recursive lexicographic procedure and one of 18 plausible wrong variants of it (only the "
+        "first candidate followed, all/any swapped, all inclusion-minimal sets instead of the "
+        "minimum-cardinality ones, tie decides, duplicates counted once, clause cost instead of "
+        "cardinality, early stop of a cost-ordered enumeration, ...) disagree. "
         "evaluations = answers compared; non-trivial = A, A&B, A&notB satisfiable; distinct by "
         "(atom count, base masks, query masks).")
 ASSUMPTIONS = ["the stratum 'min-card-set-after-larger' uses a modelled clause cost (false conjuncts of a conjunctive consequent) only to choose inputs; the oracle stays the definition",
@@ -26,7 +31,7 @@ STRATA = ["lex!=W", "card-tie", "multi-v-diff-cont", "multi-f-diff-cont", "allpa
 
 
 def budget(tier):
-    return {"examples": 2400 if tier == "quick" else 16000,
+    return {"examples": 2400 if tier == "quick" else 16000, "hard_examples": 480 if tier == "quick" else 6000,
             "soft_seconds": 240 if tier == "quick" else 2400}
 
 
@@ -86,11 +91,20 @@ def search(seed):
     return best
 
 
+def _hard(seed):
+    from .. import hard
+    return hard.any_kind(seed, [k for k in hard.KINDS if k.startswith("lex:")])
+
+
 def strategy(tier):
     return st.one_of(gen.strong_case(1, 4 if tier == "quick" else 5, 6),
                      gen.multiclause_case(5),
                      st.integers(0, 2**40).map(search),
                      st.integers(0, 2**40).map(search))
+
+
+def hard_strategy(tier):
+    return st.integers(0, 2**40).map(_hard)
 
 
 def _strata(ctx, M, q, BA, e):
@@ -102,6 +116,8 @@ def _strata(ctx, M, q, BA, e):
 def run_case(case, ctx):
     if case.get("searched") == "min-card-set-after-larger":
         ctx.stratum("min-card-set-after-larger")
+    if str(case.get("searched", "")).startswith("lex:"):
+        ctx.stratum("source:distinguishing-input")
     if case.get("searched"):
         ctx.stratum("source:search")
         ctx.extra["reference_only_candidates"] = ctx.extra.get("reference_only_candidates", 0) + case.get("tried", 0)
@@ -129,4 +145,4 @@ describe = opsem.describe
 
 
 def required_strata(tier):
-    return ["expected=True", "expected=False"] + STRATA
+    return ["expected=True", "expected=False", "source:distinguishing-input"] + STRATA
